@@ -500,7 +500,7 @@ def restore_fields_rule(ctx, rid="R15.14"):
     one when the iteration has it, zeros when the iteration was saved under a scheme that does not keep it; never
     nothing, which would leave the live field of another iteration in place.  Interpreted with a history entry saved
     under the static scheme and one saved under the dynamic scheme."""
-    from ..xeval import Interp, XObj, EnumVal, Opaque, XRaise
+    from ..xeval import Interp, XObj, EnumVal, Opaque, XRaise, Uninterpretable
     from ..xarray import XArray
     from ..alg import Poly, Q, is_zero
 
@@ -514,6 +514,8 @@ def restore_fields_rule(ctx, rid="R15.14"):
         ("EasyFEA.Simulations._elastic.Elastic", "newmark", dict(displacement=U), dict(displacement=U, speed=V, accel=A), 3),
         ("EasyFEA.Simulations._hyperelastic.HyperElastic", "midpoint", dict(displacement=U), dict(displacement=U, speed=V, accel=A), 3),
         ("EasyFEA.Simulations._thermal.Thermal", "parabolic", dict(thermal=U), dict(thermal=U, thermalDot=V), 2),
+        ("EasyFEA.Simulations._weakforms.WeakForms", "newmark", dict(u=U), dict(u=U, v=V, a=A), 3),
+        ("EasyFEA.Simulations._weakforms.WeakForms", "parabolic", dict(u=U), dict(u=U, v=V), 2),
     ]
     for cname, algo, static_entry, dynamic_entry, nfields in cfg:
         ci = repo.cls(cname)
@@ -529,11 +531,16 @@ def restore_fields_rule(ctx, rid="R15.14"):
             except XRaise as e:
                 r.fail(f.qualname, f"restore:{label}", f.file, f.lineno, f"{ci.name}.Set_Iter", f"{algo} scheme, iteration {label}: raises {e}")
                 continue
+            except Uninterpretable as e:
+                if "KeyError" in str(e):
+                    r.fail(f.qualname, f"restore:{label}", f.file, f.lineno, f"{ci.name}.Set_Iter", f"{algo} scheme, iteration {label}: the field is read from the history entry without a test ({str(e).split(': ', 1)[-1]}): an iteration saved before the time scheme was selected cannot be restored")
+                    continue
+                raise
             bad = None
             if len(got) != 1:
                 bad = f"_Set_solutions is called {len(got)} times"
             else:
-                want = [U, entry.get("speed", entry.get("thermalDot")), entry.get("accel")][:nfields]
+                want = [U, entry.get("speed", entry.get("thermalDot", entry.get("v"))), entry.get("accel", entry.get("a"))][:nfields]
                 for k, (g, w) in enumerate(zip(got[0], want)):
                     name = ("the primary field", "the rate field", "the acceleration")[k]
                     if not isinstance(g, XArray):
